@@ -1,4 +1,5 @@
 import O4.Lemmas.Meek
+import O4.Generated.Facts.Meeklite
 /-!
 # C16 — meek_lite carries the byte stream intact through HTTP polling
 
@@ -220,6 +221,21 @@ theorem retry_after_close_counterexample :
 example :
     (run true (init 0) [.wTimer, .wStep, .sOk [1, 2, 3], .wStep, .wStep, .close, .readCall 8, .readDeq]).out
       = [.rFail, .closeOk] := by
+  decide
+
+
+/-- **structural fact, regenerated from the Go source on every run (go/ast)**: every package-level
+    variable (file-scope `var`) of the packages this property's mechanisms live in
+    (transports/meeklite) is one of the names below — error values, fixed byte strings,
+    flags and function hooks that the code only reads after initialisation.  The models treat all
+    other state as owned by one connection / one object; a NEW package-level variable (a cache, a
+    pool, a scratch buffer, a pre-keyed hash shared "to save allocations") is how such state comes
+    to be shared between connections and goroutines, which compiles, passes the tests and typically
+    needs true parallelism or a multi-connection history to misbehave.  Adding one breaks this
+    theorem; the concurrent / multi-connection families of the harness then search for the failing
+    schedule. -/
+theorem no_new_package_level_state :
+    O4.Facts.Meeklite.pkg_vars ⊆ ["ErrNotSupported", "loopbackAddr"] := by
   decide
 
 end C16
